@@ -371,6 +371,7 @@ def run_property(prop: str, tier: str = "quick", replay: Optional[str] = None, t
             "bounded": [native_info] if native_info else [],
             "extra_checks": extra_results,
             "engine_limits": limits,
+            "unchecked_assertions": sorted(eng.unchecked_asserts),
             "undecided": [r.name for r in undecided],
             "known_findings": [f for f, _ in known_hits],
             "fixed_entries": fixed,
